@@ -2,11 +2,12 @@
    ORDERING KERNEL: theorem statements only.
    Model: RBTree.v (rb_insert_node, rb_insert_color, rb_remove, rb_remove_color, rb_find, rb_prev, rb_next of
    src/tree_data_sorted.c, zipper formulation that follows the C control flow case by case) and Sorted.v
-   (lyds_insert, lyds_link_data_node, lazy tree creation, lyds_unlink: sibling sequence + tree of one
-   system-ordered (leaf-)list).  Proofs: RBTreeP.v, SortedP.v.
+   (lyds_insert, lyds_link_data_node, lazy tree creation, lyds_unlink, lyd_dup, lyd_merge with the pool of recycled
+   nodes (lyds_insert2), lyds_split, lyds_merge: sibling sequence + tree of one system-ordered (leaf-)list).
+   Proofs: RBTreeP.v, SortedP.v.
    The compare callback is ANY total preorder [cmp] (the type plugin's sort callback); the order axioms are
-   explicit premises.  Not covered here (explored by the EditHistory oracle only): schema order between
-   different nodes, user-ordered lists, the children hash table, lyds_split / lyds_merge / lyds_insert2,
+   explicit premises.  Not covered here (explored by oracles only): schema order between different nodes,
+   user-ordered lists, opaque nodes, the children hash table, source lists with equal keys in lyd_merge,
    link-level faithfulness (parent fields, metadata placement - tied by the driver's read-only checker). *)
 From Coq Require Import Permutation.
 From LY Require Import Base RBTree Sorted RBTreeP SortedP IntLex Dec64.
